@@ -194,8 +194,9 @@ SessSpec == SessInit /\ [][SessNext]_vars
 
 \* all paths on one slot and one client id: the implementation keeps session state the specification
 \* does not distinguish (e.g. a filter subscribed twice), so one witness per transition is not enough
+SW == [on |-> TRUE, t |-> <<"b">>, pl |-> "w1", q |-> 0, r |-> FALSE]     \* whether a connection has a will changes nothing about its session
 Sess1Next == steps < MaxSteps /\
-  \/ \E cl \in BOOLEAN : Connect(c1, k1, cl, NoWill)
+  \/ \E cl \in BOOLEAN, w \in {NoWill, SW} : Connect(c1, k1, cl, w)
   \/ \E q \in {0, 1} : Subscribe(c1, 1, << <<<<"a">>, q>> >>)
   \/ Unsubscribe(c1, 2, << <<"a">> >>)
   \/ \E how \in {"disconnect", "cut"} : End(c1, how)
